@@ -360,12 +360,46 @@ class MethodAnalysis:
         """Returns the extra conditions that hold after the block when control falls through
         (negations of the conditions under which the block left early), or None if it never falls through."""
         conds = tuple(conds)
-        for st in stmts:
+        for i, st in enumerate(stmts):
+            dup = self._side_split(st)
+            if dup is not None and i + 1 < len(stmts):
+                # the statement binds a name to "in" on one branch and "out" on the other: run the rest of the block
+                # once per branch so that the side stays a literal (tail duplication; the branches are exclusive)
+                test, first_t, first_f = dup
+                rest = list(stmts[i + 1:])
+                node = ast.If(test=test, body=first_t + rest, orelse=first_f + rest)
+                ast.copy_location(node, st)
+                r = self.stmt(node, env, conds, loops)
+                if r is None:
+                    return None
+                return conds + tuple(r)
             r = self.stmt(st, env, conds, loops)
             if r is None:
                 return None
             conds = conds + tuple(r)
         return conds
+
+    @staticmethod
+    def _side_split(st):
+        """(test, [stmts if true], [stmts if false]) when st binds one name to different in/out literals on two branches."""
+        def side_const(e):
+            return isinstance(e, ast.Constant) and e.value in ("in", "out")
+
+        if isinstance(st, ast.Assign) and len(st.targets) == 1 and isinstance(st.targets[0], ast.Name) and isinstance(st.value, ast.IfExp) and side_const(st.value.body) and side_const(st.value.orelse) and st.value.body.value != st.value.orelse.value:
+            a = ast.copy_location(ast.Assign(targets=st.targets, value=st.value.body), st)
+            b = ast.copy_location(ast.Assign(targets=st.targets, value=st.value.orelse), st)
+            return st.value.test, [a], [b]
+        if isinstance(st, ast.If) and st.orelse:
+            def consts(body):
+                out = {}
+                for x in body:
+                    if isinstance(x, ast.Assign) and len(x.targets) == 1 and isinstance(x.targets[0], ast.Name) and side_const(x.value):
+                        out[x.targets[0].id] = x.value.value
+                return out
+            a, b = consts(st.body), consts(st.orelse)
+            if any(k in b and b[k] != v for k, v in a.items()) and not any(isinstance(x, (ast.Return, ast.Raise, ast.Continue, ast.Break)) for x in st.body + st.orelse):
+                return st.test, list(st.body), list(st.orelse)
+        return None
 
     def cond_eval(self, test, env):
         facts = {}
@@ -977,6 +1011,22 @@ class MethodAnalysis:
     # ------------------------------------------------------------------ calls
     def call(self, node, env, conds, loops, st, quiet):
         f = node.func
+        if not quiet:
+            # `g(**x)`, `dict(x)`, `r.update(x)` with a caller-supplied x: raises unless x is a mapping (with string keys for **)
+            own_kw = self.fn.node.args.kwarg.arg if self.fn.node.args.kwarg else None
+            risky = [k.value for k in node.keywords if k.arg is None]
+            fname = getattr(f, "id", getattr(f, "attr", None))
+            if fname in ("dict", "update") and len(node.args) == 1 and not (isinstance(f, ast.Attribute) and fname == "dict"):
+                risky.append(node.args[0])
+            for x in risky:
+                if isinstance(x, ast.Name) and x.id == own_kw:
+                    continue
+                try:
+                    xv = self.ev(x, env, conds, loops, st, True)
+                except (Unsupported, Infeasible):
+                    continue
+                if isinstance(xv, CallerData) and not self.is_trusted_term(xv.term):
+                    self.raise_point(f"{ast.unparse(node)[:60]}: caller-supplied `{ast.unparse(x)[:30]}` not known to be a mapping (with string keys)", st, conds, loops)
         if isinstance(f, ast.Name):
             name = f.id
             args = [self.ev(a, env, conds, loops, st, quiet) for a in node.args]
@@ -1323,6 +1373,12 @@ class MethodAnalysis:
             return self.entry_set(e)
         if m in ("union", "intersection", "difference", "symmetric_difference", "issubset", "issuperset", "isdisjoint"):
             return self.set_method(self.entry_set(e), m, args, node, st, env, None)
+        if m in ("update", "difference_update", "intersection_update") and len(args) == 1:
+            self.inplace_entry(e, {"update": "|", "difference_update": "-", "intersection_update": "&"}[m], args[0], st, conds, loops)
+            return Opaque(m)
+        if m == "clear" and not args:
+            self.inplace_entry(e, "clear", None, st, conds, loops)
+            return Opaque(m)
         if m in ("clear", "update", "pop", "difference_update", "intersection_update", "symmetric_difference_update"):
             raise Unsupported(f"{self.fn.fq}:{st.lineno}: in-place .{m}() on a stored member set is not an idiom the incidence walker recognises")
         return Opaque(f"entry.{m}")
@@ -1361,7 +1417,45 @@ class MethodAnalysis:
     def expr_stmt(self, st, env, conds, loops):
         self.ev(st.value, env, conds, loops, st)
 
+    def inplace_entry(self, e: Entry, op, operand, st, conds, loops):
+        """`entry |= S`, `entry -= S`, `entry &= S` (and update / difference_update / intersection_update / clear) on a
+        stored member set: the new content is stored in place of the old one."""
+        if e.directed_dict:
+            raise Unsupported(f"{self.fn.fq}:{st.lineno}: in-place set operation on an in/out dict")
+        old = self.entry_set(e)
+        if op == "clear":
+            f = FALSE
+            toks = frozenset()
+        else:
+            r = self.as_set(operand)
+            if r is None:
+                raise Unsupported(f"{self.fn.fq}:{st.lineno}: in-place set operation on a stored member set with an operand the walker cannot describe ({type(operand).__name__})")
+            if r.source and not r.materialized:
+                self.consume(r.source, st, "merged into a stored member set")
+            f = {"|": Or(old.f, r.f), "-": And(old.f, Not(r.f)), "&": And(old.f, r.f)}[op]
+            toks = r.toks
+        self.store_content(e.rel, e.side, e.key, SetV(f, toks=toks), False, st, conds, loops)
+
+    _AUG_OPS = {ast.BitOr: "|", ast.Sub: "-", ast.BitAnd: "&"}
+
     def aug(self, st, env, conds, loops):
+        if isinstance(st.target, ast.Subscript):
+            tgt = ast.copy_location(ast.Subscript(value=st.target.value, slice=st.target.slice, ctx=ast.Load()), st.target)
+            tv = self.ev(tgt, env, conds, loops, st)
+            if isinstance(tv, SetV) and tv.entry is not None:
+                raise Unsupported(f"{self.fn.fq}:{st.lineno}: in-place set operator on an alias of a stored member set")
+            if isinstance(tv, Entry):
+                op = self._AUG_OPS.get(type(st.op))
+                if op is None:
+                    raise Unsupported(f"{self.fn.fq}:{st.lineno}: augmented assignment `{ast.unparse(st)[:60]}` on a stored member set")
+                self.inplace_entry(tv, op, self.ev(st.value, env, conds, loops, st), st, conds, loops)
+                return
+            self.ev(st.value, env, conds, loops, st)
+            return
+        if isinstance(st.target, ast.Name) and isinstance(env.get(st.target.id), Entry) and type(st.op) in self._AUG_OPS:
+            # `members = self._edge[e]; members |= {...}`: the operator works in place on the stored set
+            self.inplace_entry(env[st.target.id], self._AUG_OPS[type(st.op)], self.ev(st.value, env, conds, loops, st), st, conds, loops)
+            return
         if isinstance(st.target, ast.Name):
             v = env.get(st.target.id)
             if isinstance(st.op, ast.Add):
